@@ -203,10 +203,18 @@ def get_bin_on_value_1d(val, arr):
         elif val >= arr[ind_max]:
             return ind_max
         else:
-            shift = int(
-                (ind_max - ind_min) * (
-                    float(val - arr[ind_min]) / (arr[ind_max] - arr[ind_min])
-                ))
+            span = arr[ind_max] - arr[ind_min]
+            if span > 0:
+                shift = int(
+                    (ind_max - ind_min) * (float(val - arr[ind_min]) / span)
+                )
+            else:
+                # differences of large integer and float edges
+                # can be rounded to zero
+                shift = 0
+            # for the same reason the guess can fall
+            # outside the current range
+            shift = min(max(shift, 0), ind_max - ind_min)
             ind_guess = ind_min + shift
 
             if ind_min == ind_guess:
